@@ -4,7 +4,7 @@
 cd /verif
 MODE="${1:-own}"; shift
 SEEDS="$@"; [ -z "$SEEDS" ] && SEEDS=$(ls seeded | grep -E '^C[0-9]+-[0-9]+$')
-rm -rf /tmp/seedverif
+rm -rf /tmp/seedenv/verif
 export SEED_KEEP_SNAPSHOT=1
 for s in $SEEDS; do
   D=/verif/seeded/$s
@@ -41,7 +41,7 @@ else:
       'origin': 'written by a fresh sub-agent that saw only the text of the property and a scratch worktree',
       'description': md[:1500],
       'verified': 'tools/seedverify.sh: in a scratch worktree of /repo HEAD the demonstration passes on the clean tree, the patch applies, go build ./... succeeds, the demonstration fails with the patch, and the full suite (go test -mod=mod -vet=off -count=1 ./...) passes with the patch',
-      'checks_run': 'tools/seedrun.sh: git -C /repo apply patch.diff; ./check.sh <id> quick for the ids in checks.log; git -C /repo checkout -- .'}
+      'checks_run': 'tools/seedrun.sh: patch applied to a clean tree of /repo HEAD (private worktree; SEED_IN_REPO=1: /repo itself); ./check.sh <id> quick for the ids in checks.log from a snapshot of the committed /verif; tree restored'}
 meta['caught_by'] = caught; meta['reports'] = keys
 json.dump(meta, open(mp, 'w'), indent=1)
 print(sid, 'caught by:', ' '.join(caught) or 'NONE')
